@@ -100,3 +100,13 @@ Proof.
   { unfold lam_scope. destruct ip; cbn [assoc]; rewrite str_eqb_refl; reflexivity. }
   rewrite H. reflexivity.
 Qed.
+
+(** Non-vacuity: [find: x => x > 1] over [1; 2; "a"] and over [1; 2; 5] (comparing
+    the string "a" with 1 would raise) both give 2. *)
+Example stopping_filter_example :
+  let c := fresh_ctx 30 [] [109%N] in
+  let body := ECmp OGt (EPath [120%N] []) (ELit (VInt 1)) in
+  eval 5 c (EFilterL (ELit (VList [VInt 1; VInt 2; VStr [97%N]])) LFind [120%N] None body) = EOk (VInt 2)
+  /\ eval 5 c (EFilterL (ELit (VList [VInt 1; VInt 2; VInt 5])) LFind [120%N] None body) = EOk (VInt 2)
+  /\ eval 5 c (EFilterL (ELit (VList [VInt 1; VStr [97%N]; VInt 2])) LFind [120%N] None body) = EErr LiquidTypeError.
+Proof. vm_compute. repeat split; reflexivity. Qed.
